@@ -24,7 +24,12 @@ RULE = ("random command graphs of 1-9 declarations (chains, forests, diamonds, d
         "vectors (several added flags around one block of words, with and without a command), default-command vectors "
         "(empty, option first, word first, internal set name first) and random mixed vectors are parsed; a malformed stream "
         "(duplicate names, unknown/forward/self parents, empty names, conflicting option strings of both kinds, unknown "
-        "get_cmd_parser names, bad default_command).  Non-trivial = a constructed parser with at least one inherited option "
+        "get_cmd_parser names, bad default_command).  35 % of the graphs take their parser names from a family with containment / "
+        "near collisions (one name a prefix, suffix or inner substring of another, names differing by case or by '-' vs '_', "
+        "names with ', . + @', 'p,q' next to p and q, a parser named like an added option without its dashes, one 120-character "
+        "name; now and then get_cmd_parser(<near miss of a declared name>)).  Every 7th graph and the fixed cases are run a second "
+        "time in a child interpreter with 'python -O' (assert statements stripped); for well-formed declarations the observation "
+        "must be identical (oracle clause optimize-mode).  Non-trivial = a constructed parser with at least one inherited option "
         "(some parser has a dependent) and one parsed vector.")
 TRUSTED_BASE = [
     "argparse (CPython 3.12): a parser accepts '--o' iff an action with that option string was added to it; parents=[...] copies the "
@@ -47,7 +52,9 @@ ASSUMPTIONS = [
     "types, nargs, short option strings and several option strings per argument are not modelled (the propagation code forwards "
     "args/kwargs unchanged)",
     "command names used in argument vectors do not start with '-'",
-    "python is not run with -O (the declaration checks are assert statements)",
+    "for ill-formed declarations python is not run with -O (the declaration checks are assert statements); for well-formed "
+    "declarations behaviour under -O is tested to be the same (share of the cases, child interpreter), not proved",
+    "parser names, the default command and plain words consist of ASCII letters, digits and '_ - , . + @' and do not start with '-'",
 ]
 MODELLED = ("ak/cli_tools.py AkArgumentParser, ArgParser.__init__ (multi-command branch), parse_args, _init_multicmd_parser, "
             "add_argument (store_true flags, one-value options, nargs='*' positionals), get_cmd_parser; not modelled: single-command "
@@ -256,12 +263,13 @@ def _graph(rng, shape, n):
     return out
 
 
-def _render(rng, g, messy):
+def _render(rng, g, messy, shuffle=True):
     out = []
     for nm, internal, ps in g:
         s = ("!" if internal else "") + nm
         ps = list(ps)
-        rng.shuffle(ps)
+        if shuffle:
+            rng.shuffle(ps)
         if messy and ps and rng.random() < 0.3:
             ps.append(rng.choice(ps))          # duplicate reference
         chunks = []
@@ -275,6 +283,90 @@ def _render(rng, g, messy):
             s += ":" + ",".join(chunks)
         out.append(s)
     return out
+
+
+# --- names that contain / nearly equal one another (the model and the oracle compare names exactly) -------------------
+_BASES = ["run", "out", "cmd1", "a", "ca", "log-file", "x_y", "Ab", "o", "v", "help", "color", "command", "st.d", "n0"]
+NAME_PUNCT = ",.+@"
+
+
+def _valid_name(s, pool):
+    return (0 < len(s) <= 130 and s not in pool and s[0] not in "-!" and ":" not in s
+            and all(c.isascii() and (c.isalnum() or c in "_-" + NAME_PUNCT) for c in s))
+
+
+def _variant(rng, pool):
+    src = [x for x in pool if len(x) <= 24]
+    s = rng.choice(src)
+    k = rng.randrange(15)
+    if k == 0:
+        return rng.choice(["dry-", "re", "std", "x", "_", "0", "no-"]) + s           # s becomes a suffix
+    if k == 1:
+        return s + rng.choice(["0", "1", "s", "-x", "_", "-", "2", "10"])            # ... a prefix
+    if k == 2:
+        return rng.choice(["x", "pre-", "_"]) + s + rng.choice(["y", "-post", "_"])  # ... an inner substring
+    if k == 3:
+        return s.swapcase()
+    if k == 4:
+        return s.upper() if s != s.upper() else s.lower()
+    if k == 5:
+        return s.replace("-", "_") if "-" in s else (s.replace("_", "-") if "_" in s.strip("_") else s + "-" + s)
+    if k == 6:
+        return s + s
+    if k == 7:
+        return s[:-1]
+    if k == 8:
+        return s[1:]
+    if k == 9:
+        return s + rng.choice(NAME_PUNCT)                                            # name + a separator character
+    if k == 10:
+        return rng.choice(src) + rng.choice([",", ",", "-", "_", "."]) + s           # the text of a parent list 'p,q'
+    if k == 11:
+        return s * (120 // len(s))                                                   # very long
+    if k == 12:
+        return s.capitalize() if s != s.capitalize() else s.title().swapcase()
+    if k == 13:
+        return s[::-1]
+    return rng.choice(NAME_PUNCT.replace(",", "")) + s
+
+
+def _collide(rng, g):
+    """rename the nodes of g to a family of names with containment / near collisions; parents keep their (shuffled) order"""
+    pool = [rng.choice(_BASES)]
+    if rng.random() < 0.3:
+        pool.append(rng.choice(_BASES))
+        pool = list(dict.fromkeys(pool))
+    tries = 0
+    while len(pool) < len(g) and tries < 400:
+        tries += 1
+        v = _variant(rng, pool)
+        if _valid_name(v, pool) and not (len(v) > 60 and any(len(x) > 60 for x in pool)):
+            pool.append(v)
+    while len(pool) < len(g):
+        pool.append("zq%d" % len(pool))
+    rng.shuffle(pool)
+    ren = {old[0]: new for old, new in zip(g, pool)}
+    out = []
+    for nm, internal, ps in g:
+        ps = [ren[p] for p in ps]
+        rng.shuffle(ps)
+        # a name with ',' cannot be referred to as a parent (the reference means two other names): mostly dropped
+        ps = [p for p in ps if "," not in p or rng.random() < 0.15]
+        out.append((ren[nm], internal, ps))
+    # now and then an earlier parser whose NAME is the text of a later parent list ('p,q' next to p and q)
+    cand = [i for i, x in enumerate(out) if len(x[2]) >= 2 and all("," not in p for p in x[2])]
+    if cand and rng.random() < 0.3:
+        i = rng.choice(cand)
+        nm = ",".join(out[i][2])
+        if nm not in [x[0] for x in out]:
+            out.insert(rng.randrange(0, i + 1), (nm, rng.random() < 0.5, []))
+    return out
+
+
+def _rename_node(g, ops, old, new):
+    g2 = [(new if a == old else a, b, [new if p == old else p for p in c]) for a, b, c in g]
+    ops2 = [[new if o[0] == old else o[0], o[1], o[2]] for o in ops]
+    return g2, ops2
 
 
 def _argvs(rng, g, ops, default, big):
@@ -350,8 +442,10 @@ def _argvs(rng, g, ops, default, big):
     return av
 
 
-def _mk_case(rng, shape, n, big, messy=False):
+def _mk_case(rng, shape, n, big, messy=False, collide=False):
     g = _graph(rng, shape, n)
+    if collide:
+        g = _collide(rng, g)
     keys = [x[0] for x in g]
     cmds = [x[0] for x in g if not x[1]]
     ops = []
@@ -373,13 +467,28 @@ def _mk_case(rng, shape, n, big, messy=False):
     if rng.random() < 0.12:
         fl = [o for o in ops if o[1] in ("flag", "val")]
         ops.append([None if rng.random() < 0.1 else rng.choice(keys), rng.choice(["flag", "flag", "val"]), rng.choice(fl)[2]])
+    if collide and rng.random() < 0.18:
+        # get_cmd_parser with a name that is only NEAR a declared one (prefix, other case, '-' for '_', ...): ValueError;
+        # the case ends at this call, so it comes last
+        for _ in range(20):
+            near = _variant(rng, keys)
+            if _valid_name(near, keys) and "," not in near:
+                ops.append([near, rng.choice(["flag", "val"]), _name("o", 25 * 26 + 25)])
+                break
+    if collide and rng.random() < 0.35:
+        # a parser named like an option without its dashes (or like a positional)
+        keys0 = [x[0] for x in g]
+        new = rng.choice(ops)[2]
+        if new not in keys0:
+            g, ops = _rename_node(g, ops, rng.choice(keys0), new)
+        cmds = [x[0] for x in g if not x[1]]
     default = None
     r = rng.random()
     if r < 0.2 and cmds:
         default = rng.choice(cmds)
     cfg = [rng.random() < 0.1, rng.random() < 0.1, rng.random() < 0.08]
-    return {"cfg": cfg, "cmds": _render(rng, g, messy), "default": default, "ops": ops,
-            "argvs": _argvs(rng, g, ops, default, big), "shape": shape}
+    return {"cfg": cfg, "cmds": _render(rng, g, messy, shuffle=not collide), "default": default, "ops": ops,
+            "argvs": _argvs(rng, g, ops, default, big), "shape": shape + ("+names" if collide else "")}
 
 
 def _malformed(rng):
@@ -445,6 +554,7 @@ def _malformed(rng):
     return out
 
 
+OPT_EVERY = 7
 SHAPES = ["chain", "forest", "diamond", "dense", "shortcut", "random", "random", "diamond", "noint"]
 
 
@@ -469,7 +579,11 @@ def gen_cases(rng, tier):
     for i in range(n_graphs):
         shape = SHAPES[i % len(SHAPES)]
         n = rng.choice([1, 2, 3, 4, 4, 5, 5, 6, 7, 8, 9]) if shape != "diamond" else rng.choice([4, 4, 5, 6, 7, 9])
-        cases.append(_mk_case(rng, shape, n, big, messy=rng.random() < 0.3))
+        cases.append(_mk_case(rng, shape, n, big, messy=rng.random() < 0.3, collide=rng.random() < 0.35))
+        if i % OPT_EVERY == 0:
+            cases[-1]["opt"] = True         # also run in a child interpreter with assert statements stripped (python -O)
+    for c in cases[:3]:
+        c["opt"] = True
     return cases
 
 
@@ -477,7 +591,9 @@ def search_cases(rng, tier):
     out = []
     for i in range(1500):
         shape = ["diamond", "dense", "shortcut", "random"][i % 4]
-        out.append(_mk_case(rng, shape, rng.choice([3, 4, 5, 6, 8]), False, messy=rng.random() < 0.2))
+        out.append(_mk_case(rng, shape, rng.choice([3, 4, 5, 6, 8]), False, messy=rng.random() < 0.2, collide=i % 3 == 0))
+        if i % 4 == 1 and i < 400:
+            out[-1]["opt"] = True
     return out + _malformed(rng)
 
 
@@ -504,7 +620,42 @@ def _exc(e):
     return SX.exc_name(e)
 
 
+_CHILD = (
+    "import sys, json, os\n"
+    "assert_on = False\n"
+    "try:\n"
+    "    assert False\n"
+    "except AssertionError:\n"
+    "    assert_on = True\n"
+    "from harness.props import c19\n"
+    "import ak.cli_tools as m\n"
+    "root = os.path.realpath(os.environ['VERIF_REPO'])\n"
+    "case = json.load(sys.stdin)\n"
+    "if assert_on or not os.path.realpath(m.__file__).startswith(root + os.sep):\n"
+    "    out = {'__child__': 'not -O or ak not from the repo'}\n"
+    "else:\n"
+    "    out = c19._impl_run_plain(case)\n"
+    "sys.stdout.write(json.dumps(out))\n")
+
+
 def impl_run(case):
+    obs = _impl_run_plain(case)
+    if case.get("opt") and _wellformed(_parsed_names(case)) and case["cmds"]:
+        # the same case in a child interpreter that strips assert statements (python -O): for declarations that violate no
+        # assertion the observation must be the same (oracle clause optimize-mode)
+        import json
+        import subprocess
+        import sys
+        try:
+            r = subprocess.run([sys.executable, "-O", "-c", _CHILD], input=json.dumps(dict(case, opt=False)), text=True,
+                               stdout=subprocess.PIPE, stderr=subprocess.PIPE, timeout=IMPL_TIMEOUT - 5)
+            obs["O"] = json.loads(r.stdout) if r.returncode == 0 else {"__child__": "rc %d: %s" % (r.returncode, r.stderr[-300:])}
+        except subprocess.TimeoutExpired:
+            obs["O"] = {"__child__": "timeout"}
+    return obs
+
+
+def _impl_run_plain(case):
     import contextlib
     import io
     from ak.cli_tools import ArgParser
@@ -618,6 +769,12 @@ def _safe_word(s):
     return isinstance(s, str) and s != "" and all(c.isascii() and (c.isalnum() or c in "_-") for c in s) and not s.startswith("-")
 
 
+def _safe_name(s):
+    """command / parser names and plain words: argparse classifies a token by its first character only"""
+    return isinstance(s, str) and s != "" and all(c.isascii() and (c.isalnum() or c in "_-" + NAME_PUNCT) for c in s) \
+        and not s.startswith("-")
+
+
 def _parsed_names(case):
     """names as the declaration syntax of the docstring defines them: '!name:parent,parent'"""
     out = []
@@ -640,9 +797,9 @@ def in_model(case, obs):
     if not case["argvs"]:
         return all(isinstance(o[2], str) and _safe_word(o[2]) for o in case["ops"])
     names = [n for n, _, _ in _parsed_names(case)]
-    if not all(_safe_word(n) for n in names):
+    if not all(_safe_name(n) for n in names):
         return False
-    if case["default"] is not None and not _safe_word(case["default"]):
+    if case["default"] is not None and not _safe_name(case["default"]):
         return False
     optnames = [o[2] for o in case["ops"]]
     reserved = RESERVED - ({"verbose"} if case["cfg"][0] else set())
@@ -663,7 +820,7 @@ def in_model(case, obs):
             if not isinstance(t, str):
                 return False
             if not t.startswith("-"):
-                if not _safe_word(t):
+                if not _safe_name(t):
                     return False
                 if t == "auto" and has_no_color:
                     return False
@@ -735,6 +892,20 @@ def oracle(case, obs):
     out = []
     decls = _parsed_names(case)
     wf = bool(case["cmds"]) and _wellformed(decls)
+    if wf and "O" in obs:
+        o2 = obs["O"]
+        mine = {k: v for k, v in obs.items() if k != "O"}
+        if "__child__" in o2:
+            out.append(("optimize-mode", f"the run under python -O failed: {o2['__child__']}"))
+        elif o2 != mine:
+            diff = [k for k in sorted(set(o2) | set(mine)) if o2.get(k) != mine.get(k)]
+            where = ""
+            if "parses" in diff and isinstance(o2.get("parses"), list) and isinstance(mine.get("parses"), list):
+                j = next((j for j, (x, y) in enumerate(zip(mine["parses"], o2["parses"])) if x != y), None)
+                if j is not None:
+                    where = f"; parse_args({case['argvs'][j]!r}) gives {_short(mine['parses'][j])} but under -O {_short(o2['parses'][j])}"
+            out.append(("optimize-mode", f"ArgParser(commands={case['cmds']!r}): every declaration is well formed (no assertion fires), yet "
+                                         f"with assert statements stripped (python -O) the observation differs in {diff!r}{where}"))
     if obs["ctor"][0] == "err":
         if wf:
             sig = "diamond-assertion" if (obs["ctor"][1] == "AssertionError" and _has_shared_ancestor(decls)) else "declare-raises"
